@@ -689,12 +689,12 @@ EvalNode(m, n) ==
     [] k = "var" ->
          LET loc == Lookup(m, m.env, nd.s) IN
            IF loc = 0 THEN Throw(m, "RuntimeError", n)
-           ELSE IF m.store[loc].t = "undef" THEN Val(m, Poison)       \* read of a declared but undefined name
+           ELSE IF m.store[loc].t = "undef" THEN Throw(m, "RuntimeError", n)   \* a declared name whose definition has not run
            ELSE Val(m, m.store[loc])
     [] k = "self" ->
          LET loc == Lookup(m, m.env, "self") IN
            IF loc = 0 THEN Throw(m, "RuntimeError", n) ELSE Val(m, m.store[loc])
-    [] k \in {"un", "bin", "and", "or", "tern", "assign", "prop", "propset", "propop", "index", "indexset", "interp"} ->
+    [] k \in {"un", "bin", "and", "or", "tern", "assign", "prop", "propset", "propop", "index", "indexset", "indexop", "interp"} ->
          Ev(PushK(m, Frame(k, n, 1, <<>>, m.env)), Kid(n, 1))
     [] k = "opassign" ->
          \* name op= e : the variable is read before e is evaluated
@@ -828,6 +828,43 @@ AddMembers(m, members, i, ce, cid) ==
                  ELSE [m1 EXCEPT !.heap[cid].mk = Append(@, Node(fn).s), !.heap[cid].mv = Append(@, c)]
        IN AddMembers(m2, members, i + 1, ce, cid)
 
+\* o[v]
+IndexGet(m0, o, v, n) ==
+  IF o.t = "ref" /\ o.x \in {"list", "tuple"} THEN
+    LET xs == m0.heap[o.n].xs len == Len(xs) IN
+      IF ~IsNum(v) THEN Throw(m0, "RuntimeError", n)
+      ELSE IF v.x = "frac" THEN ThrowN(m0, "IndexError", n, "[]")      \* "Index must be an integer."
+      ELSE IF ~IsInt(v) THEN Val(m0, Poison)
+      ELSE LET ix == IF v.n < 0 THEN len + v.n ELSE v.n IN
+             IF ix < 0 \/ ix >= len THEN ThrowN(m0, "IndexError", n, "[]") ELSE Val(m0, xs[ix + 1])
+  ELSE IF o.t = "ref" /\ o.x = "map" THEN
+    LET p == KeyPos(m0.heap[o.n].xs, v, 1) IN
+      IF p = 0 THEN ThrowN(m0, "KeyError", n, "[]") ELSE Val(m0, m0.heap[o.n].xs[p + 1])
+  ELSE IF o.t = "str" THEN
+    LET len == Len(o.cp) IN
+      IF ~IsNum(v) THEN Throw(m0, "RuntimeError", n)
+      ELSE IF v.x = "frac" THEN ThrowN(m0, "IndexError", n, "[]")
+      ELSE IF ~IsInt(v) THEN Val(m0, Poison)
+      ELSE LET ix == IF v.n < 0 THEN len + v.n ELSE v.n IN
+             IF ix < 0 \/ ix >= len THEN ThrowN(m0, "IndexError", n, "[]") ELSE Val(m0, S(<<o.cp[ix + 1]>>))
+  ELSE Throw(m0, "RuntimeError", n)
+
+\* o[ixv] = v
+IndexPut(m0, o, ixv, v, n) ==
+  IF o.t = "ref" /\ o.x = "list" THEN
+    LET len == Len(m0.heap[o.n].xs) IN
+      IF ~IsNum(ixv) THEN Throw(m0, "RuntimeError", n)
+      ELSE IF ixv.x = "frac" THEN ThrowN(m0, "IndexError", n, "[]=")
+      ELSE IF ~IsInt(ixv) THEN Val(m0, Poison)
+      ELSE LET ix == IF ixv.n < 0 THEN len + ixv.n ELSE ixv.n IN
+             IF ix < 0 \/ ix >= len THEN ThrowN(m0, "IndexError", n, "[]=")
+             ELSE Val([m0 EXCEPT !.heap[o.n].xs[ix + 1] = v], v)
+  ELSE IF o.t = "ref" /\ o.x = "map" THEN
+    LET p == KeyPos(m0.heap[o.n].xs, ixv, 1) IN
+      IF p = 0 THEN Val([m0 EXCEPT !.heap[o.n].xs = @ \o <<ixv, v>>], v)
+      ELSE Val([m0 EXCEPT !.heap[o.n].xs[p + 1] = v], v)
+  ELSE Throw(m0, "RuntimeError", n)
+
 IterFrames == {"p.map", "p.map2", "p.filter", "p.filter2", "p.take", "p.zip", "p.chain", "c.next", "c.first", "c.each", "c.each2",
                "c.reduce", "c.reduce2", "c.all", "c.any", "c.all2", "c.any2", "c.last", "c.len", "c.list", "c.tuple", "c.skip"}
 
@@ -902,41 +939,19 @@ ValueAt(m, v) ==
                 IF r.ctl.m = "val" THEN SetProp(m0, fr.vs[1], Node(n).s, r.ctl.v, n) ELSE r
     [] f = "index" ->
          IF fr.i = 1 THEN Ev(PushK(m0, [fr EXCEPT !.i = 2, !.vs = <<v>>]), Kid(n, 2))
-         ELSE LET o == fr.vs[1] IN
-                IF o.t = "ref" /\ o.x \in {"list", "tuple"} THEN
-                  LET xs == m0.heap[o.n].xs len == Len(xs) IN
-                    IF ~IsNum(v) THEN Throw(m0, "RuntimeError", n)
-                    ELSE IF v.x = "frac" THEN ThrowN(m0, "IndexError", n, "[]")      \* "Index must be an integer."
-                    ELSE IF ~IsInt(v) THEN Val(m0, Poison)
-                    ELSE LET ix == IF v.n < 0 THEN len + v.n ELSE v.n IN
-                           IF ix < 0 \/ ix >= len THEN ThrowN(m0, "IndexError", n, "[]") ELSE Val(m0, xs[ix + 1])
-                ELSE IF o.t = "ref" /\ o.x = "map" THEN
-                  LET p == KeyPos(m0.heap[o.n].xs, v, 1) IN
-                    IF p = 0 THEN ThrowN(m0, "KeyError", n, "[]") ELSE Val(m0, m0.heap[o.n].xs[p + 1])
-                ELSE IF o.t = "str" THEN
-                  LET len == Len(o.cp) IN
-                    IF ~IsNum(v) THEN Throw(m0, "RuntimeError", n)
-                    ELSE IF v.x = "frac" THEN ThrowN(m0, "IndexError", n, "[]")
-                    ELSE IF ~IsInt(v) THEN Val(m0, Poison)
-                    ELSE LET ix == IF v.n < 0 THEN len + v.n ELSE v.n IN
-                           IF ix < 0 \/ ix >= len THEN ThrowN(m0, "IndexError", n, "[]") ELSE Val(m0, S(<<o.cp[ix + 1]>>))
-                ELSE Throw(m0, "RuntimeError", n)
+         ELSE IndexGet(m0, fr.vs[1], v, n)
     [] f = "indexset" ->
          IF fr.i < 3 THEN Ev(PushK(m0, [fr EXCEPT !.i = @ + 1, !.vs = Append(@, v)]), Kid(n, fr.i + 1))
-         ELSE LET o == fr.vs[1] ixv == fr.vs[2] IN
-                IF o.t = "ref" /\ o.x = "list" THEN
-                  LET len == Len(m0.heap[o.n].xs) IN
-                    IF ~IsNum(ixv) THEN Throw(m0, "RuntimeError", n)
-                    ELSE IF ixv.x = "frac" THEN ThrowN(m0, "IndexError", n, "[]=")
-                    ELSE IF ~IsInt(ixv) THEN Val(m0, Poison)
-                    ELSE LET ix == IF ixv.n < 0 THEN len + ixv.n ELSE ixv.n IN
-                           IF ix < 0 \/ ix >= len THEN ThrowN(m0, "IndexError", n, "[]=")
-                           ELSE Val([m0 EXCEPT !.heap[o.n].xs[ix + 1] = v], v)
-                ELSE IF o.t = "ref" /\ o.x = "map" THEN
-                  LET p == KeyPos(m0.heap[o.n].xs, ixv, 1) IN
-                    IF p = 0 THEN Val([m0 EXCEPT !.heap[o.n].xs = @ \o <<ixv, v>>], v)
-                    ELSE Val([m0 EXCEPT !.heap[o.n].xs[p + 1] = v], v)
-                ELSE Throw(m0, "RuntimeError", n)
+         ELSE IndexPut(m0, fr.vs[1], fr.vs[2], v, n)
+    [] f = "indexop" ->
+         \* a[i] op= e : a, then i (once), then read a[i], then e, then write a[i]
+         IF fr.i = 1 THEN Ev(PushK(m0, [fr EXCEPT !.i = 2, !.vs = <<v>>]), Kid(n, 2))
+         ELSE IF fr.i = 2 THEN
+           LET g == IndexGet(m0, fr.vs[1], v, n) IN
+             IF g.ctl.m # "val" THEN g
+             ELSE Ev(PushK(g, [fr EXCEPT !.i = 3, !.vs = <<fr.vs[1], v, g.ctl.v>>]), Kid(n, 3))
+         ELSE LET r == BinOp(m0, OpOf(Node(n).s2), fr.vs[3], v, n) IN
+                IF r.ctl.m = "val" THEN IndexPut(m0, fr.vs[1], fr.vs[2], r.ctl.v, n) ELSE r
     [] f = "interp" ->
          \* "a${e}b": every segment is converted with str()
          LET vs == Append(fr.vs, v) IN
